@@ -132,6 +132,9 @@ func disjointFromTail(v, b any) bool { return true }
 // keeps uninterpreted spec functions congruent).
 func identical[T comparable](a, b T) bool { return a == b }
 
+// unchangedElems: the elements of s hold the values they held on entry.
+func unchangedElems(s any) bool { return true }
+
 func bytesEq[A, B ~[]byte | ~string](a A, b B) bool { return string(a) == string(b) }
 
 // loopIndex names the hidden index of the innermost enclosing range loop in loop invariants.
